@@ -322,17 +322,45 @@ def main(tier, seed):
         print('HARNESS-NONDETERMINISM: replay of one history gave two states')
         return 2
     core.bfs(expand, cfgs, depth, acc, max_states=max_states)
+    import c19
+    acc.merge(core.pmap(reader_worker, c19.inband_jobs(tier), chunksize=2))
     rule = ('BFS over histories of channel operations (write sizes around packet/window '
             'limits, writelines, write_eof, pause/resume) and packet deliveries on a real '
             'client<->server pair; a state is distinct by its canonical form (channel '
             'send/recv state, windows, buffer shapes, per-stream written/delivered counts, '
             'queued wire packets); from every new state the run is drained and compared '
-            'with the FIFO stream model')
+            'with the FIFO stream model; plus the stream-reader harness: a handler reading stdin with 10 call menus '
+            'while chunks are interleaved with signals, breaks and size changes, every interleaving of deliveries and '
+            'reader calls within the deviation bound: the data read, concatenated, equals the data sent, events in place')
     return core.finish(PROP, tier, seed, 'model_checking', acc, t0, rule,
                        {'depth': depth, 'deeper': {c['name']: c['bfs_depth'] for c in cfgs if 'bfs_depth' in c}, 'max_states_per_cfg': max_states,
                         'configs': [c['name'] for c in cfgs]},
                        assumptions=['VLoop models asyncio FIFO call_soon semantics',
                                     'one transport.write == one SSH packet'])
+
+
+# ------------------------------------------------------------------ stream readers with in-band events
+def reader_worker(job):
+    """The receiving application reads through the stream API (checks/c19.py harness (e): chunks interleaved with
+    signals, breaks and size changes, every interleaving of deliveries and reader calls within the bound).  C07's
+    statement about it: the data handed out, concatenated, is what was sent -- nothing lost, repeated or moved
+    across an event."""
+    import c19
+    cfg, bound = job
+    acc = core.Acc()
+    name = 'reader|%s|pkt=%d|%s' % (cfg['name'], cfg['pkt'], cfg['cname'])
+
+    def check(obs, ch):
+        acc.add(core.digest((name, tuple(ch.choices))), transitions=obs['steps'])
+        if obs['flat'] is None or not obs['done']:
+            acc.violation('reader:hangs:%s' % cfg['cname'].split('(')[0], '%r ; script=%s calls=%s' % (obs['viol'][:1], cfg['name'], cfg['cname']),
+                          {'kind': 'reader', 'name': cfg['name'], 'cname': cfg['cname'], 'pkt': cfg['pkt'], 'choices': ch.choices})
+        elif obs['flat'] != obs['sent']:
+            acc.violation('reader:stream-differs:%s' % cfg['cname'].split('(')[0],
+                          'the handler read %r, the client sent %r ; script=%s calls=%s pkt=%d' % (obs['flat'], obs['sent'], cfg['name'], cfg['cname'], cfg['pkt']),
+                          {'kind': 'reader', 'name': cfg['name'], 'cname': cfg['cname'], 'pkt': cfg['pkt'], 'choices': ch.choices})
+    core.explore_dfs(lambda ch: c19.inband_run(cfg, ch), bound, check)
+    return acc
 
 
 def _canon_of(cfg, hist, seed):
@@ -344,6 +372,17 @@ def _canon_of(cfg, hist, seed):
 
 
 def replay(rep):
+    if rep['replay'].get('kind') == 'reader':
+        import c19
+        r = rep['replay']
+        for c, _b in c19.inband_jobs('thorough'):
+            if (c['name'], c['cname'], c['pkt']) == (r['name'], r['cname'], r['pkt']):
+                obs = c19.inband_run(c, core.Chooser(r['choices']))
+                print(json.dumps({'read': repr(obs['flat']), 'sent': repr(obs['sent'])}, indent=1))
+                if obs['flat'] != obs['sent'] or not obs['done']:
+                    print('VIOLATION property=%s replay=(given)' % PROP)
+                    return 1
+        return 0
     cfg, hist = rep['replay']['cfg'], rep['replay']['hist']
     w = run_hist(cfg, hist)
     try:
